@@ -17,7 +17,7 @@ LEVEL = 'exploration'
 ENGINE = 'E1-product-explorer'
 TECHNIQUE = ('bounded-exhaustive enumeration of a 700-lane alphabet of monotone functions with exactly known roots x vector '
              'compositions (every lane alone, every ordered pair of a 60-lane core, full vector, tiled rotations, scalar) for '
-             'both solvers; zero-width brackets, plateaus of roots and lanes of huge magnitude next to every core lane; invalid '
+             'both solvers; zero-width brackets, plateaus of roots, lanes of huge magnitude and lanes with tiny function values (1e-165 .. 1e-200) next to every core lane; invalid '
              'brackets at every position of a valid vector')
 LEVEL_TEXT = ('every lane and every enumerated vector composition is solved by the real solvers and each lane result is '
               'compared with its known root and with its solo result; functions outside the generated family are not '
@@ -41,6 +41,12 @@ ZERO_WIDTH = [('linear', 1.0, (0.3, 0.3), 0.0), ('cubic', 1e3, (-2.0, -2.0), 0.0
 
 # lanes whose bracket (and root) are 9 - 12 orders of magnitude larger than those of the core lanes
 HUGE_LANES = [('linear', 1.0, (0.0, 4e12), 0.731), ('cubic', 1e-30, (-1e9, 3e9), 0.5), ('arctan', 1.0, (1e10, 2e10), 0.1)]
+
+
+# lanes whose function VALUES are tiny (|f| ~ 1e-165 .. 1e-200 on the whole bracket: the product of two of them underflows to 0,
+# their signs and ratios are ordinary) - still continuous, non-decreasing, with a sign change inside the bracket
+TINY_LANES = [('linear', 1e-170, (0.0, 1.0), 0.731), ('linear', 1e-200, (-5.0, 5.0), 0.1), ('arctan', 1e-170, (-1e3, 1e3), 0.5),
+              ('tanh', 1e-165, (2.0, 2.5), 0.5), ('expm1', 1e-180, (0.0, 1.0), 0.3)]
 
 
 # lanes with a PLATEAU of roots (a dead zone around `root`): the function is 0 on the whole bracket, end points included
@@ -102,6 +108,7 @@ def cases(tier, seed):
     out.append(('dtypes',))
     out.append(('zero-width',))
     out.append(('magnitudes',))
+    out.append(('tiny-values',))
     return out
 
 
@@ -226,6 +233,22 @@ def run_case(case):
         r.nontriv(len(ZERO_WIDTH) * 2 * len(core))
         r.hit('zero-width')
         r['sample'] = {'composition': 'zero-width bracket at a root', 'lanes': [list(map(str, z)) for z in ZERO_WIDTH]}
+        return r
+    if kind == 'tiny-values':
+        core = core_lanes()
+        for tiny in TINY_LANES:
+            for solver in ('bisect', 'chandrupatla'):
+                check(solver, [tiny], lambda i: f'tiny-valued lane {tiny} alone')
+                check(solver, [tiny], lambda i: f'tiny-valued lane {tiny} alone (scalar call)', scalar=True) if solver == 'chandrupatla' else None
+                for k, lane in enumerate(core):
+                    check(solver, [tiny, lane], lambda i: f'tiny-valued lane {tiny} first, core lane {k} second')
+                    check(solver, [lane, tiny], lambda i: f'core lane {k} first, tiny-valued lane {tiny} second')
+                    r.state((solver, 'tiny-values', tiny, k))
+                check(solver, [tiny] * 200, lambda i: f'200 copies of the tiny-valued lane {tiny}')
+                check(solver, TINY_LANES + core + TINY_LANES[::-1], lambda i: 'tiny-valued lanes around the 60-lane core')
+        r.nontriv(len(TINY_LANES) * 2 * len(core))
+        r.hit('tiny-values')
+        r['sample'] = {'composition': 'tiny function values', 'lanes': [list(map(str, z)) for z in TINY_LANES]}
         return r
     if kind == 'magnitudes':
         # lanes of very different magnitude in one call: every lane keeps ITS OWN tolerance (1e-9 of its own bracket width)
@@ -409,5 +432,5 @@ def finish(agg, tier):
     engine.require(agg['hits'].get('solo', 0) == len(LANES), 'solo lanes not exhausted')
     engine.require(agg['hits'].get('pairs', 0) >= 3600, 'pairs not exhausted')
     engine.require(agg['hits'].get('invalid', 0) >= 2000, 'invalid brackets under-explored')
-    for k in ('full', 'tiled', 'scalar', 'dtypes', 'zero-width', 'magnitudes'):
+    for k in ('full', 'tiled', 'scalar', 'dtypes', 'zero-width', 'magnitudes', 'tiny-values'):
         engine.require(agg['hits'].get(k, 0) >= 1, f'{k} missing')
